@@ -54,6 +54,17 @@ type Case struct {
 	Success fsx.Tree
 	// ExpectFail: the fault-free run itself must fail (OutDirMissing).
 	ExpectFail bool
+
+	// The following are set by internal/cliprop (cases driven through pkg/cli); zero for API cases.
+	// Aux: paths tied to the destination (target of a symlinked destination, other name of a
+	// hard-linked destination): like the destination they must never be seen damaged.
+	Aux []string
+	// Unjudged: paths that are not files to protect (the file that plays stdout).
+	Unjudged []string
+	// TmpDir: relative directory that plays $TMPDIR ("" = none).
+	TmpDir string
+	// AfterRestore re-establishes what a tree snapshot cannot express (hard links).
+	AfterRestore func() error
 }
 
 func copyFile(src, dst string, mode os.FileMode) error {
@@ -207,7 +218,15 @@ func Build(fx, root string, op opcat.Op, sc Scenario) (*Case, error) {
 }
 
 // Reset restores the pristine sandbox.
-func (c *Case) Reset() error { return fsx.Restore(c.Root, c.Pristine) }
+func (c *Case) Reset() error {
+	if err := fsx.Restore(c.Root, c.Pristine); err != nil {
+		return err
+	}
+	if c.AfterRestore != nil {
+		return c.AfterRestore()
+	}
+	return nil
+}
 
 // Run executes the operation, recovering a panic.
 func (c *Case) Run() (err error, panicVal any) {
